@@ -4,6 +4,7 @@ LEVEL = "other"
 MODULES = ["vf.contracts.c_parameters", "vf.contracts.c_components", "vf.contracts.c_specshift", "vf.contracts.c_circuit_modes", "vf.contracts.c_rewrite"]
 NSHARDS = 6
 EXPLANATION = ("Clause table. PROVED unbounded (pyvc, all argument type variants): Parameter.set / min_bound / max_bound preserve the object invariant (value within its bounds; bounds only with numeric values), raise ParameterValueError / ParameterBoundsError exactly under the stated conditions and change nothing when they raise; Parameter.get returns the current value; an out-of-range reflectivity held by a Parameter raises ValueError when the matrix is requested (BeamSplitter validation contract); add_empty_mode_to_circuit_spec / add_modes_to_circuit_spec (herald insertion and sub-circuit placement) keep the SAME Parameter object in the shifted BeamSplitter / PhaseShifter / Loss element (element contracts, vf/contracts/c_specshift.py). BOUNDED, exact (xlift): circuits built with Parameter objects in every component kind (also inside plain and heralded groups) report the unitary for the values at construction and, after set() on the user's objects, for the new values - also after unpack_groups / compress_mode_swaps / remove_non_adjacent_bs / copy; every Parameter is listed exactly once by identity; a frozen copy keeps the old values and lists none; a reflectivity / loss of 1.5 gives CircuitCompilationError on use. OUT OF REACH: NaN (A1). ADDED LATER: Loss validation contract (current Parameter value out of range raises ValueError); BOUNDED native: the Parameter invariant with float32 / float64 / int64 values and bounds compared in double precision; the parameter list read between construction steps.")
+EXPLANATION = EXPLANATION + " ADDED IN ROUNDS 5-8. PROVED (pyvc): Circuit.bs / ps / loss keep a Parameter as the object itself and record the Loss element whatever its value; _freeze_params, Circuit.copy (plain and frozen), get_all_params (each object once by identity, also inside nested groups), remove_non_adjacent_bs / compress_mode_swaps keep the user's Parameter objects, _add_empty_mode shifts the spec passed in. BOUNDED: equal initial values of distinct Parameters; zero-valued loss Parameters; falsy non-numeric values; NaN / infinite values and bounds (native)."
 ASSUMPTIONS = ["A1: float values are exact reals (NaN excluded)"]
 TRUSTED = ["z3 5.1", "pyvc encoding of the Python subset"]
 
